@@ -102,7 +102,29 @@ def run(ctx):
     F = ctx.facts()
     rep = ctx.rep
     rep.not_decided += ['avalanche / collision behaviour of SipHash-2-4 (the 2^-32 clause)', 'pnet flag getter/setter bit layout']
-    tcp, table, heads, label = tcp_arms(F)
+    try:
+        tcp, table, heads, label = tcp_arms(F)
+    except FlagTableFork as e:
+        # guards that mix the flags with other request data: the arm is a relation of the flags (rules/common.py tcp_table).
+        # A flag value that CAN select an arm other than the reference policy's is a violation of the table rule whatever
+        # the other data is; if every possible arm agrees with the policy the relation is beyond this check: no verdict.
+        lab = {}
+        for hs in e.rows.values():
+            for h in hs:
+                if h not in lab:
+                    c = classify_arm(e.fn, h)
+                    if c.startswith('reply'):
+                        fl = sorted(set(v for _, v in last_set_flags(e.fn, h)), key=lambda x: -1 if x is None else x)
+                        c = 'synack' if fl == [SYN | ACK] else 'finack' if fl == [FIN | ACK] else 'other:flags=%s' % fl
+                    lab[h] = c
+        off = [(v, sorted(set(lab[h] for h in hs))) for v, hs in sorted(e.rows.items()) if set(lab[h] for h in hs) != {flag_policy(v)}]
+        if not off:
+            raise
+        r1 = rep.rule('C06-R1', 'exhaustive decision table of the 512 TCP flag values: the arm selected by tcp::repl equals the reference policy - here the arm depends on request data other than the flags; every arm a flag value can select must be the policy\'s', floor=1)
+        for v, ls in off:
+            rep.check(r1, False, 'flags=%#05x' % v, 'arms this value can select: %s, reference policy: %s' % (ls, flag_policy(v)), e.fn.loc(e.rows[v][0]))
+        rep.not_decided.append('the remaining C06 rules need the flag table as a function; not evaluated on this tree')
+        return
     rep.saw(tcp)
 
     r1 = rep.rule('C06-R1', 'exhaustive decision table of the 512 TCP flag values: the arm selected by tcp::repl equals the reference policy (SYN-ACK iff SYN set and the other flags are a subset of {PSH,URG,CWR,ECE} without CWR&ECE, after the PSH|ACK / ACK / RST / FIN|ACK arms)', floor=512)
